@@ -24,7 +24,7 @@ func init() {
 				"the `_` slot answer notNil(piped value); exits that answer a constant true without having looked at a value are reported. (C17.steps) the field-path loop tests err and notNil for every " +
 				"step inside the loop and the index form tests base and index recursively before resolving. (C17.kinds) notNil answers false for an invalid value, consults IsNil exactly for " +
 				"{Chan, Func, Interface, Map, Ptr, Slice} and answers true otherwise. (C17.lookup) `v, ok := m[k]` and `v, ok = m[k]` both bind the first target to the looked-up value and the second to " +
-				"IsValid() of it, and the parser selects this form only for two targets and one index-expression source.",
+				"IsValid() of it, and the parser selects this form only for two targets and one index-expression source. (C17.total, continued) the guard is explored: every way out of it that may have recovered something (a path on which nothing is known counts) has set the result to false, whatever shape the test of recover() has. (C17.lookup form, continued) the three conditions are required where the node is built, for every state in which the flag is not known to be false — whether the flag is set to true under them or computed from them. (C17.steps field-path, continued) the loop is a plain index walk or a range over the segments, each step resolves the segment on the value reached so far and stores the result into that very variable (object identity: a := in the loop that shadows it is reported), nothing but a return leaves the loop.",
 			NotDecided:  "\"exists\" for arbitrary data graphs is resolveIndex's reflection (C06); a field path with zero segments cannot be built by the parser (newField splits a non-empty name) and is not considered.",
 			Assumptions: []string{"reflect.Value.IsNil is defined exactly for Chan, Func, Interface, Map, Pointer, Slice and UnsafePointer"},
 			Trusted:     commonTrusted,
@@ -54,6 +54,7 @@ func runC17(c *an.Ctx) {
 		return
 	}
 	info := isSet.Info()
+	_ = info
 
 	// ---------------------------------------------------------------- C17.total
 	okGuard, why := false, "isSet installs no deferred function literal that recovers"
@@ -78,26 +79,34 @@ func runC17(c *an.Ctx) {
 				lit := p.FnByLit[fl]
 				recovers := len(p.CallsIn(lit, "builtin.recover")) == 1
 				repanics := len(p.CallsDeep(lit, "builtin.panic")) > 0
-				setsFalse := false
 				result := isSet.Sig.Results().At(0)
-				an.InspectOwn(lit, func(n ast.Node) bool {
-					is, isIf := n.(*ast.IfStmt)
-					if !isIf {
-						return true
-					}
-					cond := strings.ReplaceAll(an.Str(is.Cond), " ", "")
-					if !strings.HasSuffix(cond, "!=nil") {
-						return true
-					}
-					for _, st := range is.Body.List {
-						if as, isAs := st.(*ast.AssignStmt); isAs && len(as.Lhs) == 1 && an.Str(as.Rhs[0]) == "false" {
-							if id, isId := as.Lhs[0].(*ast.Ident); isId && an.ObjOf(info, id) == types.Object(result) {
-								setsFalse = true
-							}
+				// every way out of the guard that may have recovered something has set the result to false
+				recBranch, isRecovered := recTracker(lit)
+				linfo := lit.Info()
+				gx := p.NewExplorer(lit, an.Hooks{Branch: recBranch, PreAssign: func(x *an.Explorer, lhs, rhs ast.Expr, stmt ast.Node, st *an.State) {
+					if id, isId := an.Unparen(lhs).(*ast.Ident); isId && rhs != nil && an.ObjOf(linfo, id) == types.Object(result) {
+						if an.Str(an.Unparen(rhs)) == "false" {
+							st.Set("res", "false")
+						} else {
+							st.Set("res", "other")
 						}
 					}
-					return true
-				})
+				}})
+				gx.Run(nil)
+				c.States += gx.Visited
+				setsFalse := gx.Undecided == ""
+				nRec := 0
+				for _, ex := range gx.Exits {
+					if ex.Kind == an.ExitReturn && isRecovered(ex.State) {
+						nRec++
+						if ex.State.Get("res") != "false" {
+							setsFalse = false
+						}
+					}
+				}
+				if nRec == 0 {
+					setsFalse = false
+				}
 				switch {
 				case !recovers:
 					why = "the deferred guard of isSet does not call recover() exactly once"
@@ -267,6 +276,8 @@ func c17exits(c *an.Ctx, f *an.Fn) {
 			a.ok, a.why = false, "bare return"
 		case an.Str(res) == "false":
 		case isNonNilAnswer(info, res):
+		case c17answerWithFacts(info, res, ex.State):
+			// the error test was made by a guard clause in front of the answer: err == nil is a fact of the path
 		case an.Str(res) == "true":
 			// constant true: acceptable only behind the facts err == nil and notNil(...) (the field-path loop)
 			hasErr, hasNotNil := false, false
@@ -371,36 +382,119 @@ func c17steps(c *an.Ctx, f *an.Fn) {
 	} else {
 		ok, why := false, "no loop over the path segments"
 		armInspect(f, cc, func(n ast.Node) bool {
-			fs, isFor := n.(*ast.ForStmt)
-			if !isFor {
-				return true
-			}
-			hdr := strings.ReplaceAll(an.StmtStr(fs.Init)+";"+an.Str(fs.Cond)+";"+an.StmtStr(fs.Post), " ", "")
-			if hdr != "i:=0;i<len(node.Ident);i++" {
-				why = "the segment loop is `for " + hdr + "`, not over every segment"
-				return true
-			}
-			resolves, tests := false, false
-			for _, st := range fs.Body.List {
-				switch s := st.(type) {
-				case *ast.AssignStmt:
-					if len(s.Rhs) == 1 {
-						if call, isCall := an.Unparen(s.Rhs[0]).(*ast.CallExpr); isCall && an.CalleeName(info, call) == "jet.resolveIndex" && an.Str(call.Args[2]) == "node.Ident[i]" && an.Str(call.Args[0]) == an.Str(s.Lhs[0]) {
-							resolves = true
-						}
-					}
-				case *ast.IfStmt:
-					cond := strings.ReplaceAll(an.Str(s.Cond), " ", "")
-					if resolves && (cond == "err!=nil||!notNil(resolved)" || cond == "!notNil(resolved)||err!=nil") && len(s.Body.List) == 1 {
-						if ret, isRet := s.Body.List[0].(*ast.ReturnStmt); isRet && an.Str(ret.Results[0]) == "false" {
-							tests = true
-						}
-					}
+			// the loop walks every segment of the field path: `for i := 0; i < len(<path>); i++` using <path>[i], or a
+			// range over <path> using its value
+			var body *ast.BlockStmt
+			var isElem func(e ast.Expr) bool
+			switch l := n.(type) {
+			case *ast.ForStmt:
+				body = l.Body
+				iv, list := c17plainWalk(info, l)
+				if iv == nil || p.FieldKey(info, list) != "FieldNode.Ident" {
+					why = "the segment loop is `for " + strings.ReplaceAll(an.StmtStr(l.Init)+";"+an.Str(l.Cond)+";"+an.StmtStr(l.Post), " ", "") + "`, not over every segment"
+					return true
 				}
+				isElem = func(e ast.Expr) bool {
+					ix, isIx := an.Unparen(e).(*ast.IndexExpr)
+					if !isIx || p.FieldKey(info, ix.X) != "FieldNode.Ident" {
+						return false
+					}
+					id, isId := an.Unparen(ix.Index).(*ast.Ident)
+					return isId && an.ObjOf(info, id) == iv
+				}
+			case *ast.RangeStmt:
+				body = l.Body
+				if p.FieldKey(info, l.X) != "FieldNode.Ident" {
+					why = "the segment loop ranges over `" + an.Str(l.X) + "`, not over the segments"
+					return true
+				}
+				vid, isId := l.Value.(*ast.Ident)
+				if !isId || l.Value == nil {
+					why = "the segment loop does not use the segments it ranges over"
+					return true
+				}
+				vo := an.ObjOf(info, vid)
+				isElem = func(e ast.Expr) bool {
+					id, isId := an.Unparen(e).(*ast.Ident)
+					return isId && an.ObjOf(info, id) == vo
+				}
+			default:
+				return true
 			}
-			if resolves && tests {
+			// each step resolves the segment on the value reached so far and stores the result back into that very
+			// variable (not into a new one declared by := in the loop); nothing leaves or cuts short the loop other than
+			// a return, and a failing step answers false (that err == nil and notNil hold where true is answered is
+			// C17.nonnil's part)
+			resolves, tests, cut := false, false, ""
+			var resolveCall *ast.CallExpr
+			ast.Inspect(body, func(m ast.Node) bool {
+				switch s := m.(type) {
+				case *ast.FuncLit:
+					return false
+				case *ast.AssignStmt:
+					if len(s.Rhs) == 1 && len(s.Lhs) >= 1 {
+						if call, isCall := an.Unparen(s.Rhs[0]).(*ast.CallExpr); isCall && an.CalleeName(info, call) == "jet.resolveIndex" && len(call.Args) == 3 && isElem(call.Args[2]) {
+							lid, ok1 := an.Unparen(s.Lhs[0]).(*ast.Ident)
+							aid, ok2 := an.Unparen(call.Args[0]).(*ast.Ident)
+							if ok1 && ok2 && an.ObjOf(info, lid) != nil && an.ObjOf(info, lid) == an.ObjOf(info, aid) {
+								resolves = true
+								resolveCall = call
+							}
+						}
+					}
+				case *ast.ReturnStmt:
+					if len(s.Results) == 1 && an.Str(s.Results[0]) == "false" {
+						tests = true
+					}
+				case *ast.BranchStmt:
+					cut = s.Tok.String()
+				}
+				return true
+			})
+			// every step but the first starts from a value that was found to be non-nil: where the loop's resolve call is
+			// reached again on a path, notNil(<the value it resolves on>) is known to hold
+			untested := false
+			if resolves && resolveCall != nil {
+				var notNils []*ast.CallExpr
+				an.InspectOwn(f, func(m ast.Node) bool {
+					if call, isCall := m.(*ast.CallExpr); isCall && an.CalleeName(info, call) == "jet.notNil" && len(call.Args) == 1 {
+						notNils = append(notNils, call)
+					}
+					return true
+				})
+				sx := p.NewExplorer(f, an.Hooks{Call: func(x *an.Explorer, call *ast.CallExpr, st *an.State) {
+					if call != resolveCall {
+						return
+					}
+					if st.Add("steps", 1) > 1 {
+						bk, has := x.Key(call.Args[0])
+						known := false
+						for _, nn := range notNils {
+							if k, ok := x.Key(nn.Args[0]); ok && has && k == bk {
+								if t, kn := x.Truth(nn, st); kn && t {
+									known = true
+								}
+							}
+						}
+						if !known {
+							untested = true
+						}
+					}
+					if st.Int("steps") > 2 {
+						st.SetInt("steps", 2)
+					}
+				}})
+				sx.Run(nil)
+				c.States += sx.Visited
+			}
+			switch {
+			case cut != "":
+				why = "the segment loop contains `" + cut + "`: not every step of a field path is resolved and tested"
+			case untested:
+				why = "a step of a field path is resolved on a value that was not found to be non-nil (only the last step is tested): an intermediate nil value is dereferenced or counts as set"
+			case resolves && tests:
 				ok = true
-			} else {
+			default:
 				why = "not every step of a field path is resolved and tested (err != nil || !notNil → false) inside the loop: a nil intermediate value is dereferenced or counts as set"
 			}
 			return true
@@ -812,12 +906,31 @@ func c17lookup(c *an.Ctx) {
 			return false
 		}
 		ok := false
-		if store != nil && leftVar != nil && rightVar != nil {
+		_ = store
+		// where the node is built, the flag is either known to be false or the three conditions are established
+		// (whether the flag was set by `flag = true` under them or computed from them)
+		var builds []ast.Node
+		for _, call := range p.CallsIn(f, "(*jet.Template).newSet") {
+			builds = append(builds, call)
+		}
+		if flagVar != nil && leftVar != nil && rightVar != nil && len(builds) > 0 {
 			lnames, rnames := lenNames(leftVar), lenNames(rightVar)
-			pr := p.ProbeFn(f, []ast.Node{store}, an.Hooks{})
+			pr := p.ProbeFn(f, builds, an.Hooks{})
 			c.States += pr.X.Visited
-			ok = len(pr.At[store]) > 0
-			for _, st := range pr.At[store] {
+			ok = true
+			nTrue := 0
+			var sts []*an.State
+			for _, b := range builds {
+				sts = append(sts, pr.At[b]...)
+			}
+			if len(sts) == 0 {
+				ok = false
+			}
+			for _, st := range sts {
+				if t, known := pr.X.Truth(flagVar, st); known && !t {
+					continue
+				}
+				nTrue++
 				idx := false
 				for k, v := range st.Facts {
 					pk := an.PlainKey(k)
@@ -828,6 +941,9 @@ func c17lookup(c *an.Ctx) {
 				if !(lenIs(st, lnames, "2") && lenIs(st, rnames, "1") && idx) {
 					ok = false
 				}
+			}
+			if nTrue == 0 {
+				ok = false // the flag is never set: the two-value form is not recognised at all
 			}
 		}
 		c.Check(ok, "C17.lookup", "(*Template).assignmentOrExpression/form", f.Pos(), "the two-value lookup is selected only for two targets and one index-expression source",
@@ -868,12 +984,23 @@ func c17stmtCannotPanic(p *an.Prog, f *an.Fn, s ast.Stmt) bool {
 		recv = an.ObjOf(info, f.Decl.Recv.List[0].Names[0])
 	}
 	ok := true
+	var visit func(n ast.Node) bool
 	for _, e := range rhs {
-		ast.Inspect(e, func(n ast.Node) bool {
+		visit = func(n ast.Node) bool {
 			if !ok {
 				return false
 			}
 			switch n := n.(type) {
+			case *ast.CompositeLit:
+				// the values a literal is built from, not its type expression
+				for _, el := range n.Elts {
+					if kv, isKV := el.(*ast.KeyValueExpr); isKV {
+						ast.Inspect(kv.Value, visit)
+					} else {
+						ast.Inspect(el, visit)
+					}
+				}
+				return false
 			case *ast.CallExpr:
 				if !c11cannotPanic(p, f, n, 0) {
 					ok = false
@@ -897,7 +1024,67 @@ func c17stmtCannotPanic(p *an.Prog, f *an.Fn, s ast.Stmt) bool {
 				}
 			}
 			return ok
-		})
+		}
+		ast.Inspect(e, visit)
 	}
 	return ok
+}
+
+// c17plainWalk: `for i := 0; i < len(L); i++` → (object of i, L); nil otherwise.
+func c17plainWalk(info *types.Info, s *ast.ForStmt) (types.Object, ast.Expr) {
+	init, ok := s.Init.(*ast.AssignStmt)
+	if !ok || len(init.Lhs) != 1 || len(init.Rhs) != 1 || an.Str(init.Rhs[0]) != "0" {
+		return nil, nil
+	}
+	id, ok := init.Lhs[0].(*ast.Ident)
+	if !ok {
+		return nil, nil
+	}
+	iv := an.ObjOf(info, id)
+	cond, ok := an.Unparen(s.Cond).(*ast.BinaryExpr)
+	if !ok || s.Cond == nil || cond.Op != token.LSS {
+		return nil, nil
+	}
+	if cid, ok := an.Unparen(cond.X).(*ast.Ident); !ok || an.ObjOf(info, cid) != iv {
+		return nil, nil
+	}
+	call, ok := an.Unparen(cond.Y).(*ast.CallExpr)
+	if !ok || an.CalleeName(info, call) != "builtin.len" || len(call.Args) != 1 {
+		return nil, nil
+	}
+	post, ok := s.Post.(*ast.IncDecStmt)
+	if !ok || post.Tok != token.INC {
+		return nil, nil
+	}
+	if pid, ok := an.Unparen(post.X).(*ast.Ident); !ok || an.ObjOf(info, pid) != iv {
+		return nil, nil
+	}
+	return iv, call.Args[0]
+}
+
+// c17answerWithFacts: the answer's conjuncts and the facts of the path together contain `<error> == nil` and notNil(…).
+func c17answerWithFacts(info *types.Info, e ast.Expr, st *an.State) bool {
+	hasErr, hasNotNil := false, false
+	for _, cj := range conjuncts(e) {
+		s := strings.ReplaceAll(an.Str(cj), " ", "")
+		if s == "err==nil" || s == "nil==err" {
+			hasErr = true
+		}
+		if call, ok := an.Unparen(cj).(*ast.CallExpr); ok && an.CalleeName(info, call) == "jet.notNil" {
+			hasNotNil = true
+		}
+	}
+	for k, v := range st.Facts {
+		pk := an.PlainKey(k)
+		if v && (pk == "err == nil" || pk == "nil == err") {
+			hasErr = true
+		}
+		if !v && (pk == "err != nil" || pk == "nil != err") {
+			hasErr = true
+		}
+		if v && strings.HasPrefix(pk, "notNil(") {
+			hasNotNil = true
+		}
+	}
+	return hasErr && hasNotNil
 }
